@@ -118,6 +118,8 @@ type arMember struct {
 	name ssa.Value
 	body ssa.Value
 	call *ssa.Call
+	done *ssa.BasicBlock // exit block of the table loop the call sits in (nil: straight-line)
+	row  int
 }
 
 // arWriter finds the module helper that writes one ar member (a function that
@@ -143,7 +145,7 @@ func arMembers(c *Ctx, fn *ssa.Function) []arMember {
 			return
 		}
 		var name, body ssa.Value
-		for i, a := range call.Call.Args {
+		for _, a := range call.Call.Args {
 			switch a.Type().String() {
 			case "string":
 				if name == nil {
@@ -152,13 +154,43 @@ func arMembers(c *Ctx, fn *ssa.Function) []arMember {
 			case "[]byte":
 				body = a
 			}
-			_ = i
 		}
-		if name != nil && body != nil {
-			out = append(out, arMember{name, body, call})
+		if name == nil || body == nil {
+			return
 		}
+		// table-driven: the call sits in a loop over a literal table of
+		// {name, body, ...} rows - one member per row, in row order
+		if ia, nfield, ok := loopElemField(name); ok {
+			if ib, bfield, ok := loopElemField(body); ok && ia == ib {
+				if arr, done := fullRangeOver(ia, call); arr != nil {
+					if rows := tableRows(arr, ia); rows != nil {
+						for i, row := range rows {
+							n, b := row[nfield], row[bfield]
+							if n == nil || b == nil {
+								return
+							}
+							out = append(out, arMember{n, b, call, done, i})
+						}
+						return
+					}
+				}
+			}
+		}
+		out = append(out, arMember{name, body, call, nil, 0})
 	})
 	return out
+}
+
+// memberBefore: a is written before b on every path that writes b.
+func memberBefore(a, b arMember) bool {
+	switch {
+	case a.call == b.call:
+		return a.done != nil && a.row < b.row
+	case a.done != nil:
+		return a.done == b.call.Block() || a.done.Dominates(b.call.Block())
+	default:
+		return instrDominates(a.call, b.call)
+	}
 }
 
 func constOrEmpty(v ssa.Value) string {
@@ -267,7 +299,7 @@ func checkDebSigning(c *Ctx, r *Report, pa *provAnalysis) {
 	}
 	r.Check(okBody, "F12-deb", "deb: _gpg member holds the signer's output", c.instrPos(sigMember.call), "the stored signature must be the value returned by the signing function")
 	// member order: signature written after the three members
-	r.Check(instrDominates(bin.call, ctl.call) && instrDominates(ctl.call, dataMember.call) && instrDominates(dataMember.call, sigMember.call), "F12-deb", "deb: member order binary, control, data, signature", c.instrPos(bin.call), "members must be written in this order on every path")
+	r.Check(memberBefore(bin, ctl) && memberBefore(ctl, *dataMember) && memberBefore(*dataMember, *sigMember), "F12-deb", "deb: member order binary, control, data, signature", c.instrPos(bin.call), "members must be written in this order on every path")
 
 	// debsign: MultiReader order
 	reach := c.Reach(pk.Package)
@@ -714,7 +746,7 @@ func checkKeyRead(c *Ctx, r *Report) {
 				"every path to a successful return must read the configured key file; a path that signs without reading it (a cached or stale key) produces a signature that need not match the configured key")
 		}
 	}
-	r.Floor("K-key-read", n, 4)
+	r.Floor("K-key-read", n, 2)
 }
 
 // variadicOrdered returns the elements of a variadic slice in index order.
@@ -757,42 +789,66 @@ func checkRPMSigning(c *Ctx, r *Report, pa *provAnalysis) {
 		return
 	}
 	n := 0
-	forEachInstr(pk.Package, func(in ssa.Instruction) {
+	var own []*ssa.Function
+	for _, g := range sortedFuncs(c, c.Reach(pk.Package)) {
+		if c.funcPkgPath(g) == pk.PkgPath {
+			own = append(own, g)
+		}
+	}
+	isSigField := func(v ssa.Value) string {
+		for _, a := range pa.Of(v).fields() {
+			if strings.HasSuffix(a, "RPM.Signature.PackageSignature.KeyFile") || strings.HasSuffix(a, "RPM.Signature.PackageSignature.SignFn") {
+				return a
+			}
+		}
+		x := v
+		for k := 0; k < 3; k++ {
+			ld, ok := x.(*ssa.UnOp)
+			if !ok {
+				break
+			}
+			if pp, _ := addrPath(ld.X); strings.HasSuffix(pp, "RPM.Signature.PackageSignature.KeyFile") || strings.HasSuffix(pp, "RPM.Signature.PackageSignature.SignFn") {
+				return pp
+			}
+			if w := cellValue(ld); w != nil {
+				x = w
+			} else {
+				break
+			}
+		}
+		return ""
+	}
+	forEachInstrIn(own, func(in ssa.Instruction) {
 		call, ok := in.(*ssa.Call)
 		if !ok || !calleeIs(call, rpmpackPath, "RPM", "SetPGPSigner") {
 			return
 		}
 		n++
-		// guarded by KeyFile != "" or SignFn != nil
-		cells := []struct {
-			key, fn string
-			want    bool
-		}{{"", "nil", false}, {"key.gpg", "nil", true}}
-		_ = cells
+		// guarded by KeyFile != "" or SignFn != nil: the call hangs under the
+		// configured edge of such a test (either polarity)
 		guard := ""
 		for d := call.Block(); d != nil && guard == ""; d = d.Idom() {
 			for _, p := range d.Preds {
 				ifi, ok := p.Instrs[len(p.Instrs)-1].(*ssa.If)
-				if !ok || p.Succs[0] != d {
+				if !ok || len(d.Preds) != 1 {
 					continue
 				}
-				if bo, ok := ifi.Cond.(*ssa.BinOp); ok && bo.Op == token.NEQ {
-					x := bo.X
-					for k := 0; k < 3; k++ {
-						ld, ok := x.(*ssa.UnOp)
-						if !ok {
-							break
-						}
-						if pp, _ := addrPath(ld.X); strings.HasSuffix(pp, "RPM.Signature.PackageSignature.KeyFile") || strings.HasSuffix(pp, "RPM.Signature.PackageSignature.SignFn") {
-							guard = pp
-							break
-						}
-						if w := cellValue(ld); w != nil {
-							x = w
-						} else {
-							break
-						}
-					}
+				bo, ok := ifi.Cond.(*ssa.BinOp)
+				if !ok {
+					continue
+				}
+				if !(bo.Op == token.NEQ && p.Succs[0] == d || bo.Op == token.EQL && p.Succs[1] == d) {
+					continue
+				}
+				zero := false
+				if k, ok := bo.Y.(*ssa.Const); ok && (k.IsNil() || constOrEmpty(k) == "" && k.Value != nil) {
+					zero = true
+				}
+				if !zero {
+					continue
+				}
+				if g := isSigField(bo.X); g != "" {
+					guard = g
 				}
 			}
 		}
@@ -887,7 +943,20 @@ func checkTypedFailures(c *Ctx, r *Report, pa *provAnalysis) {
 					add(sc)
 				}
 			}
-			// closures / function values handed to rpmpack as signer
+		})
+		// closures / function values handed to rpmpack as signer, anywhere
+		// on the packager's own call graph (signer setup may be a helper)
+		var own []*ssa.Function
+		for _, g := range sortedFuncs(c, c.Reach(pk.Package)) {
+			if c.funcPkgPath(g) == pk.PkgPath {
+				own = append(own, g)
+			}
+		}
+		forEachInstrIn(own, func(in ssa.Instruction) {
+			call, ok := in.(*ssa.Call)
+			if !ok {
+				return
+			}
 			if calleeIs(call, rpmpackPath, "RPM", "SetPGPSigner") {
 				switch a := call.Call.Args[1].(type) {
 				case *ssa.MakeClosure:
@@ -911,7 +980,7 @@ func checkTypedFailures(c *Ctx, r *Report, pa *provAnalysis) {
 		ok, why := returnsTyped(c, f, map[*ssa.Function]bool{}, 0)
 		r.Check(ok, "E4-typed", "signing boundary "+c.funcKey(f), c.pos(f.Pos()), why)
 	}
-	r.Floor("E4-typed", len(boundaries), 4)
+	r.Floor("E4-typed", len(boundaries), 3)
 	// the signature-member write failure in deb.Package is typed as well
 	if pk := c.PackagerByFormat("deb"); pk != nil {
 		for _, m := range arMembers(c, pk.Package) {
@@ -984,4 +1053,10 @@ func returnsTyped(c *Ctx, f *ssa.Function, inprog map[*ssa.Function]bool, depth 
 		return false, fmt.Sprintf("the return at %s in %s can carry an error that is not a *nfpm.ErrSigningFailure: callers cannot identify it as a signing failure with errors.As", c.instrPos(ret), c.funcKey(f))
 	}
 	return true, "every return carries nil or a *nfpm.ErrSigningFailure"
+}
+
+func forEachInstrIn(fns []*ssa.Function, f func(ssa.Instruction)) {
+	for _, fn := range fns {
+		forEachInstr(fn, f)
+	}
 }
